@@ -1848,7 +1848,7 @@ fn try_bitpacking(
                 max
             };
             order_preserving = order_preserving && plan_type.is_order_preserving();
-            let mut adjusted_query_plan = if query_plan.is_nullable() {
+            let adjusted_query_plan = if query_plan.is_nullable() {
                 let fused = planner.fuse_int_nulls(-min + 1, query_plan);
                 if fused.tag != EncodingType::I64 {
                     planner.cast(fused, EncodingType::I64).i64()?
@@ -1859,18 +1859,14 @@ fn try_bitpacking(
                 let offset = planner.scalar_i64(-min, true);
                 planner.add(query_plan, offset.into()).i64()?
             } else if query_plan.is_null() {
-                let x = planner
-                    .constant_expand(0, partition_len, EncodingType::I64)
-                    .i64()?;
+                let x = planner.constant_expand(0, partition_len, EncodingType::I64);
                 info!("EMITTING NULL CONSTANT EXPAND {:?}", x);
-                x
+                // The constant is the only input that does not come out of `compile_expr`, which
+                // has applied the filter already.
+                filter.apply_filter(planner, x).i64()?
             } else {
                 planner.cast(query_plan, EncodingType::I64).i64()?
             };
-            adjusted_query_plan = filter
-                .apply_filter(planner, adjusted_query_plan.into())
-                .i64()
-                .expect("source type should be i64");
 
             if total_width == 0 {
                 plan = Some(adjusted_query_plan);
